@@ -36,7 +36,7 @@ STUBS = [
     "PassThroughSSL: stands for ssl.SSLObject (write() copies 1..n plaintext bytes into the write BIO or raises SSLWantRead/WriteError by solver choice; read() returns what is in the read BIO or raises SSLWantReadError); StubBIO for ssl.MemoryBIO. Byte-transparency of real OpenSSL is NOT claimed (C08)",
 ]
 ASSUMPTIONS = ["OS threads (TCPNetworkClient/UDPNetworkClient with threading locks) are outside: no installed engine makes thread interleavings symbolic; their lock discipline is covered single-threaded by C11's StubLock"]
-BOUNDS = {"quick": "2-3 senders x 1-2 packets of 2 chunks, <= 1 suspension per chunk, K <= 5 events", "thorough": "3 senders x 2 packets, <= 2 suspensions"}
+BOUNDS = {"quick": "2-3 senders x 1-2 packets of 2 chunks, <= 1 suspension per chunk, K <= 5 events; both lock implementations (asyncio.Lock and the generic FairLock); FairLock alone: 4 tasks, <= 2 cancellations, K <= 6", "thorough": "3 senders x 2 packets, <= 2 suspensions"}
 OUTSIDE = "thread-safe blocking clients, UDP clients, real OpenSSL"
 
 
